@@ -3,7 +3,8 @@ package c04
 // QUIC strata of C04: the same two real nodes, but the connection is a real QUIC connection (p2p/transport/quic, quicreuse,
 // quic-go — all tasks of the scheduler) over simnet's UDP wire. Stratum 1: the nodes listen on QUIC only. Stratum 2: A
 // knows B's QUIC and TCP addresses, so the swarm's dial ranker races the two transports and the loser must give back
-// what it took. One planned fault per run: a blackout of datagrams in one or both directions starting at the k-th
+// what it took. Stratum 3: WebTransport only (p2p/transport/webtransport + webtransport-go + quic-go/http3 on the same
+// connection manager: QUIC handshake pinned by certhash, HTTP/3 CONNECT, Noise on the first stream). One planned fault per run: a blackout of datagrams in one or both directions starting at the k-th
 // datagram of the attempt (for a span or for good — connections then end by idle timeout), a gater rejection (the QUIC
 // transport calls InterceptAccept / InterceptSecured itself), a resource-manager refusal, a context cancellation or a
 // Close() at the k-th datagram; in two thirds of the runs random loss / duplication / reordering on top (after warm-up).
@@ -63,7 +64,7 @@ func runQUIC(t *testing.T, tape *simrt.Tape, g simrt.Gen, o *common.Outcome, qui
 	// are then part of what the attempt acquired)
 	noReuse := g.Int(2) == 1
 	payload := []int{64, 2000, 70000}[g.Weighted(3, 3, 1)]
-	o.Logf("stratum=%s background=%d reuseport-disabled=%v payload=%d plan: %s", [...]string{"", "quic", "quic+tcp"}[quic], bg, noReuse, payload, p)
+	o.Logf("stratum=%s background=%d reuseport-disabled=%v payload=%d plan: %s", [...]string{"", "quic", "quic+tcp", "webtransport"}[quic], bg, noReuse, payload, p)
 	restore := simrand.Install(uint64(payload + bg))
 	defer restore()
 
@@ -89,7 +90,7 @@ func runQUIC(t *testing.T, tape *simrt.Tape, g simrt.Gen, o *common.Outcome, qui
 			if noReuse && seed == 1 {
 				reuse = append(reuse, quicreuse.DisableReuseport())
 			}
-			nd, err := simhost.New(n, simhost.Opts{Key: simhost.DetKey(seed), IP: ip, Port: 4001, Security: "noise", QUIC: true, QUICReuse: reuse, NoTCPListen: quic == 1, Gater: gt, Rcmgr: rw, WithHost: true})
+			nd, err := simhost.New(n, simhost.Opts{Key: simhost.DetKey(seed), IP: ip, Port: 4001, Security: "noise", QUIC: true, QUICReuse: reuse, WebTransport: quic == 3, NoQUICListen: quic == 3, NoTCPListen: quic == 1 || quic == 3, Gater: gt, Rcmgr: rw, WithHost: true})
 			if err != nil {
 				o.Trouble = "node: " + err.Error()
 				real.Close()
@@ -128,6 +129,14 @@ func runQUIC(t *testing.T, tape *simrt.Tape, g simrt.Gen, o *common.Outcome, qui
 		target := peer.AddrInfo{ID: b.ID, Addrs: []ma.Multiaddr{b.QAddr}}
 		if quic == 2 {
 			target.Addrs = append(target.Addrs, b.Addr)
+		}
+		if quic == 3 {
+			wta := b.WTAddr()
+			if wta == nil {
+				o.Trouble = "no webtransport listen address"
+				return
+			}
+			target.Addrs = []ma.Multiaddr{wta}
 		}
 		a.PS.AddAddrs(b.ID, target.Addrs, peerstore.PermanentAddrTTL)
 
@@ -268,7 +277,13 @@ func runQUIC(t *testing.T, tape *simrt.Tape, g simrt.Gen, o *common.Outcome, qui
 					case 0:
 						a.Swarm.ClosePeer(b.ID)
 					case 1:
-						b.Swarm.ListenClose(b.QAddr)
+						if quic == 3 {
+							if wta := b.WTAddr(); wta != nil { // the listener's address carries the current certhashes
+								b.Swarm.ListenClose(wta)
+							}
+						} else {
+							b.Swarm.ListenClose(b.QAddr)
+						}
 					case 2:
 						closeA()
 					case 3:
@@ -419,7 +434,7 @@ func runQUIC(t *testing.T, tape *simrt.Tape, g simrt.Gen, o *common.Outcome, qui
 	o.Nontrivial = fired || udp["udp-lost"] > 0
 	if o.Nontrivial {
 		o.Probe("outcome-" + attemptOutcome)
-		o.Probe("quic-outcome-" + attemptOutcome)
+		o.Probe([...]string{"", "quic", "quic", "webtransport"}[quic] + "-outcome-" + attemptOutcome)
 	}
 	if res.Panic != "" {
 		o.Violate("C04/panic", "%s", res.Panic)
